@@ -299,6 +299,9 @@ func (se *specEnv) evalIdent(name string) (specVal, error) {
 	case "nil":
 		return specVal{isNil: true, t: IntLit(0)}, nil
 	case "result":
+		if v, ok := se.binds["result"]; ok {
+			return v, nil
+		}
 		if len(se.results) == 1 {
 			return se.results[0], nil
 		}
